@@ -328,6 +328,46 @@ pub fn test_points(case: &ModelCase, max_points: usize) -> Vec<Env> {
         }
         return to_envs(case, points);
     }
+    // every corner of the declared box (finite sides only, up to five variables): a big-M constant
+    // that is too small cuts off exactly the corners where one operand is at its top and another at
+    // its bottom, random base points rarely land there
+    if n <= 5 {
+        let sides: Vec<Vec<Big>> = case
+            .vars
+            .iter()
+            .map(|(_, d)| {
+                let (lo, hi) = d.bounds_f64();
+                let mut v = vec![];
+                if lo.is_finite() {
+                    v.push(big(lo));
+                }
+                if hi.is_finite() && hi != lo {
+                    v.push(big(hi));
+                }
+                if v.is_empty() {
+                    v.push(big(0.0));
+                }
+                v
+            })
+            .collect();
+        let mut idx = vec![0usize; n];
+        'corners: loop {
+            points.push((0..n).map(|i| sides[i][idx[i]].clone()).collect());
+            let mut k = 0;
+            loop {
+                if k == n {
+                    break 'corners;
+                }
+                idx[k] += 1;
+                if idx[k] < sides[k].len() {
+                    break;
+                }
+                idx[k] = 0;
+                k += 1;
+            }
+        }
+    }
+    let corner_count = points.len();
     let n_base = (max_points / 4).max(6);
     for _ in 0..n_base {
         let p: Vec<Big> = (0..n).map(|i| cands[i][rng.below(cands[i].len())].clone()).collect();
@@ -413,13 +453,20 @@ pub fn test_points(case: &ModelCase, max_points: usize) -> Vec<Env> {
             points.push(p);
         }
     }
+    // deterministic thinning of everything but the corners
+    let corners: Vec<Vec<Big>> = points[..corner_count].to_vec();
+    let mut rest: Vec<Vec<Big>> = points[corner_count..].to_vec();
+    rest.sort();
+    rest.dedup();
+    rest.retain(|p| !corners.contains(p));
+    while corners.len() + rest.len() > max_points.max(corners.len()) && !rest.is_empty() {
+        let k = rng.below(rest.len());
+        rest.swap_remove(k);
+    }
+    let mut points = corners;
+    points.extend(rest);
     points.sort();
     points.dedup();
-    // deterministic thinning
-    while points.len() > max_points {
-        let k = rng.below(points.len());
-        points.swap_remove(k);
-    }
     to_envs(case, points)
 }
 
